@@ -2077,6 +2077,12 @@ read_dns(int fd, struct dnsfd *dns_fds, int tun_fd, struct query *q)
 		memcpy((struct sockaddr*)&q->from, (struct sockaddr*)&from, addrlen);
 		q->fromlen = addrlen;
 
+		/* Raw packets carry no DNS query, but the raw handlers store
+		   *q as the user's latest query: it must not look pending */
+		q->id = 0;
+		q->id2 = 0;
+		q->name[0] = '\0';
+
 		/* TODO do not handle raw packets here! */
 		if (raw_decode(packet, r, q, fd, dns_fds, tun_fd)) {
 			return 0;
